@@ -527,14 +527,15 @@ type c09Store struct {
 
 	mu         sync.Mutex
 	failSize   bool  // next accessor reports an error from Size
+	failPanic  bool  // next accessor panics in Size (a bug somewhere below the handler)
 	failLookup error // next GetByHeight fails with this error
 }
 
 func (s *c09Store) GetByHeight(ctx context.Context, height uint64) (eds.AccessorStreamer, error) {
 	s.lookups.Add(1)
 	s.mu.Lock()
-	failSize, failLookup := s.failSize, s.failLookup
-	s.failSize, s.failLookup = false, nil
+	failSize, failLookup, failPanic := s.failSize, s.failLookup, s.failPanic
+	s.failSize, s.failLookup, s.failPanic = false, nil, false
 	s.mu.Unlock()
 	if failLookup != nil {
 		return nil, failLookup
@@ -549,7 +550,7 @@ func (s *c09Store) GetByHeight(ctx context.Context, height uint64) (eds.Accessor
 		return nil, err
 	}
 	s.opened.Add(1)
-	return &c09Acc{AccessorStreamer: acc, st: s, failSize: failSize}, nil
+	return &c09Acc{AccessorStreamer: acc, st: s, failSize: failSize, failPanic: failPanic}, nil
 }
 
 func (s *c09Store) HasByHeight(ctx context.Context, height uint64) (bool, error) {
@@ -560,6 +561,7 @@ type c09Acc struct {
 	eds.AccessorStreamer
 	st       *c09Store
 	failSize bool
+	failPanic bool
 	closes   atomic.Int64
 }
 
@@ -576,6 +578,9 @@ func (a *c09Acc) Close() error {
 }
 
 func (a *c09Acc) Size(ctx context.Context) (int, error) {
+	if a.failPanic {
+		panic("c09 fault: injected panic below the handler")
+	}
 	if a.failSize {
 		return 0, errors.New("c09 fault: size unavailable")
 	}
